@@ -282,6 +282,12 @@ def targets(tier='quick'):
     # with and without the reduction the dk=0 tensor is rotated back from the eigenbasis of the coupling operator in the same
     # way (contracts shared with C05): the reduction must not change what happens to the system legs
     T += [t for t in c05.rotation_targets(PROP, rp) if 'degeneracy_maps' in t.name]
+    # what the scatter loops of both back ends build (the reduced dk = 0 tensors), for every system label
+    from . import c06s
+    T += c06s.targets(PROP, rp)
+    # ... and the compression of the (smaller, differently normalised) reduced network uses the caller's RELATIVE tolerance
+    from . import nasvd
+    T += nasvd.targets(PROP, 'svd_sweep_parameters')
     for u in (True, False):
         T.append(Target('deg/per-bath-influence[MeanFieldTempo,unique=%s]' % u, 'tempo.MeanFieldTempo._prepare_backend', scen_mf(u), post_mf,
                         mf_registry(), PROP, invoke=invoke_mf, replay=lambda ob: {'func': 'mean_field_two_baths', 'inputs': {'obligation': ob['name']}}))
